@@ -27,6 +27,28 @@ ID_ONLY = {"BaseOrder.__init__": "order id / customer reference", "Trade.__init_
            "BaseOrderPackage.__init__": "package id", "utils.create_short_uuid": "client user name"}
 
 
+def _identity_only(fn, call):
+    """id(x) appears only as the element of a set / list comprehension that is used for membership tests, or
+    directly as an operand of `in` / `not in` / `==` / `is` against such a collection: the number itself
+    (which varies from run to run) is never ordered, stored in a result or printed"""
+    parents = {}
+    for n in ast.walk(fn.node):
+        for ch in ast.iter_child_nodes(n):
+            parents[id(ch)] = n
+    p = parents.get(id(call))
+    if isinstance(p, ast.Compare) and all(isinstance(o, (ast.In, ast.NotIn, ast.Eq, ast.NotEq, ast.Is, ast.IsNot)) for o in p.ops):
+        return True
+    if isinstance(p, (ast.SetComp, ast.ListComp, ast.GeneratorExp)) and p.elt is call:
+        gp_ = parents.get(id(p))
+        if isinstance(gp_, ast.Assign) and len(gp_.targets) == 1 and isinstance(gp_.targets[0], ast.Name):
+            name = gp_.targets[0].id
+            uses = [n for n in ast.walk(fn.node) if isinstance(n, ast.Name) and n.id == name and isinstance(n.ctx, ast.Load)]
+            return bool(uses) and all(
+                isinstance(parents.get(id(u)), ast.Compare) and all(isinstance(o, (ast.In, ast.NotIn)) for o in parents[id(u)].ops)
+                for u in uses)
+    return False
+
+
 def run(ctx, rep):
     prog, res = ctx.prog, ctx.res
     f = prog.own_method("FlumineSimulation", "run")
@@ -257,6 +279,8 @@ def run(ctx, rep):
         for c in walk_calls(fn.node.body):
             t = utext(c.func)
             root = t.split(".")[0]
+            if t == "id" and _identity_only(fn, c):
+                continue   # id(x) used for an identity test only: the value never reaches a result
             if root in ("random", "secrets") or t in ("os.urandom", "os.getrandom") or t in ("hash", "id"):
                 rep.violation("R4", "nondeterministic source in a simulation run: " + key(fn, c), fn, c,
                               "random / hash() / id() values differ between processes (hash seed, addresses)")
